@@ -118,7 +118,7 @@ let run_scenario line =
     match S.split_on_char ' ' part with
     | "S" :: c :: q :: _ -> cap := int_of_string c; qcap := int_of_string q
     | ["C"; tag; pat; script] ->
-        let ops = if script = "-" then [] else L.concat (L.map parse_ops (S.split_on_char ';' script)) in
+        let ops = if script = "-" || script = "NULL" then [] else      (* NULL: entry without callback = a handler that does nothing; its H line is dropped by the projection *) L.concat (L.map parse_ops (S.split_on_char ';' script)) in
         cmdl := ((unhex pat, int_to_z (int_of_string tag)), ops) :: !cmdl
     | ["C"; tag; pat] -> cmdl := ((unhex pat, int_to_z (int_of_string tag)), []) :: !cmdl
     | ["I"; h] ->
